@@ -761,6 +761,7 @@ func writeTable(l *hx.Line, ct *corpusType, srcs []*srcT, layouts []string) {
 	for i := 0; i < len(strs); i++ {
 		var extra []string
 		tableEntry(tl, strs[i], &extra, layouts, ct.Opq, nil)
+		tl.Bool(false)
 		n++
 		for _, e := range extra {
 			note(e)
